@@ -269,3 +269,7 @@ func firstN(s string, n int) string {
 
 	return s
 }
+
+// rigVnetMu serialises construction of vnet routers/nets: vnet hands out MAC addresses from an unsynchronised package
+// global (pion/transport, a test-only dependency), which the race detector flags when monitors build networks in parallel.
+var rigVnetMu sync.Mutex
